@@ -546,6 +546,16 @@ class Taint:
         fragment, a constant, or the value of a template builder? Returns (ok, offending sites)."""
         org = self.org(fi)
         bad = []
+        active = self.__dict__.setdefault("_markup_active", set())
+        if (fi.qualname, name) in active:
+            return True, []         # `acc = acc + piece`: the accumulator is judged by its other definitions and by the pieces
+        active.add((fi.qualname, name))
+        try:
+            return self._markup_class(fi, name, org, bad)
+        finally:
+            active.discard((fi.qualname, name))
+
+    def _markup_class(self, fi, name, org, bad):
         for node in org.cfg.nodes:
             a = node.ast
             val = None
